@@ -220,16 +220,19 @@ def run(report, p):
         r7.check(oku, ad, ups[0], f"the child's root hash is copied to the parent under {deps}; expected: this record is the list's root hash and the history has a parent", construct=f"copy-up guard {deps}")
         ko = pr.origins(ups[0].value.args[0], ad)
         r7.check(all(is_call(o, "get_relative_file_path") and o[5] is not None and any(s[0] == "attr" and s[2] == "parent_history" for s in subterms(o[5])) and o[2][0][0] == "param" for o in ko), ad, ups[0], "the parent's entry is not keyed by the folder's path relative to the parent history", construct="copy-up key")
-        # the loop copying every format
-        pl = [n for n in walk_no_nested(ad.node) if isinstance(n, ast.For) and any(isinstance(x, ast.Call) and isinstance(x.func, ast.Attribute) and x.func.attr == "append_hash_entry" and "parent" in norm(x.func.value) for x in ast.walk(n))]
-        okl = len(pl) == 1 and is_plain_iter(p, pl[0].iter) and norm(pl[0].iter) == f"{ad.params[3]}.items()"
-        if okl:
-            fmt, content = [norm(e) for e in pl[0].target.elts]
-            ent = [n for n in ast.walk(pl[0]) if isinstance(n, ast.Assign) and isinstance(n.value, ast.Call) and norm(n.value.func).endswith("MHLHashEntry")]
-            st = [n for n in ast.walk(pl[0]) if isinstance(n, ast.Assign) and isinstance(n.targets[0], ast.Attribute) and n.targets[0].attr == "structure_hash_string"]
-            okl = len(ent) == 1 and [norm(a) for a in ent[0].value.args[:2]] == [fmt, content] and len(st) == 1 and all(o[0] == "elem" and o[1][0] == "param" and o[1][2] == ad.params[4] for o in pr.origins(st[0].value, ad))
-            skip = [x for x in ast.walk(pl[0]) if isinstance(x, (ast.If, ast.Break, ast.Continue))]
-            okl = okl and not skip
+        # the loop copying every format (inline or through a helper shared with the record's own entries)
+        from . import c07
+
+        up_name = norm(ups[0].targets[0])
+        pl = [(hf, lp, cn, sn) for hf, lp, cn, sn, recv in c07.directory_recording_loops(p, ad) if recv == up_name]
+        okl = len(pl) == 1 and is_plain_iter(p, pl[0][1].iter) and c07.recording_loop_ok(p, pr, *pl[0])
+        if okl and pl[0][0] is ad:
+            okl = not [x for x in ast.walk(pl[0][1]) if isinstance(x, ast.If)]
+        if okl and pl[0][0] is not ad:
+            # the helper call itself sits under the copy-up guard only (plus the `if <content mapping>:` emptiness test)
+            hc = [c for c, tg in p.calls[ad.qual] if pl[0][0].qual in tg and c.args and norm(c.args[0]) == up_name]
+            okl = len(hc) == 1 and all(norm(t.ast) == ad.params[3] and l == "T" for t, l in ga.control_deps(ga.node_for(hc[0]), transitive=False) if t.kind == "test" and not any(norm(t.ast) == d for d, _ in deps))
+        pl = [x[1] for x in pl]
         r7.check(okl, ad, pl[0] if pl else ad.node, "not every format's (content, structure) pair of the child root is copied to the parent entry", construct="copy-up loop")
     else:
         r7.check(False, ad, ad.node, "the child's root hash is not copied one history level up", construct="copy-up missing")
